@@ -189,6 +189,12 @@ func runC16(c *Ctx, cs Case) {
 		}
 	}
 	tok := 0
+	type failedDelivery struct {
+		op    int
+		token string
+		rcpts []string
+	}
+	var failedDeliveries []failedDelivery
 	firedAt := map[int]bool{}
 	faulted := func(i int) bool { return firedAt[i] }
 	doOp1 := func(i int, o c16Op, mytok int) {}
@@ -223,6 +229,7 @@ func runC16(c *Ctx, cs Case) {
 			if err := mgr.Deliver(from, rcpts, "Received: from sim ([192.0.2.7]) by inbucket\r\n", body); err != nil {
 				if faulted(i) {
 					c.Stat("probe.operation_failed_after_disk_fault", 1)
+					failedDeliveries = append(failedDeliveries, failedDelivery{i, fmt.Sprintf("tok%d", mytok), o.Rcpts})
 					return
 				}
 				c.Failf(tagOf(k.Cfg)+"/Deliver->error", "op %d %s: %v", i, o, err)
@@ -269,6 +276,22 @@ func runC16(c *Ctx, cs Case) {
 	// quiescence: every event goroutine has finished
 	c.Main.Quiesce()
 	sweep()
+	// a delivery that reported failure has not reached every one of its recipients
+	for _, fd := range failedDeliveries {
+		have := 0
+		for _, n := range fd.rcpts {
+			ms, _ := st.GetMessages(n)
+			for _, m := range ms {
+				if m.Subject() == fd.token {
+					have++
+					break
+				}
+			}
+		}
+		if have == len(fd.rcpts) {
+			c.Failf(tagOf(k.Cfg)+"/failed-delivery-fully-stored", "op %d: Deliver to %v returned an error after the injected disk fault, but every recipient holds the message (%s): a sender told 'failed' sends it again", fd.op, fd.rcpts, fd.token)
+		}
+	}
 	live := map[string]bool{}
 	for _, n := range k.Names {
 		ms, _ := st.GetMessages(n)
